@@ -24,6 +24,12 @@ def jCast : CastRes → Json
   | .val v => jVal v
   | .err e => jErr (errTag e)
 
+/-- a tuple of casts as Python shows it: the generator raises at the first failing cast. -/
+def jCasts (rs : List CastRes) : Json :=
+  match rs.find? (fun r => match r with | .err _ => true | .val _ => false) with
+  | some r => jCast r
+  | none => jList jCast rs
+
 def ofDT (j : Json) : Except String DT := do
   let a ← j.getArr?
   let ns ← a.toList.mapM (·.getNat?)
@@ -53,11 +59,15 @@ def ofDType (s : String) : Except String DType :=
   | ":date" => pure .date
   | _ => throw s!"bad datatype {s}"
 
-def ofRow (j : Json) : Except String Row := do
+def ofRow (j : Json) : Except String (Except Err Row) := do
   let types ← (← getArr j "types").mapM (fun t => do ofDType (← t.getStr?))
   let names ← (← getArr j "names").mapM ofCps
   let vals ← (← getArr j "vals").mapM ofVal
-  pure (mkRow types names vals)
+  pure (mkRowChecked types names vals)
+
+def jExc {α} (f : α → Json) : Except Err α → Json
+  | .ok a => jOk (f a)
+  | .error e => jErr (errTag e)
 
 def ofFields (j : Json) : Except String (List Field) := do
   (← getArr j "fields").mapM (fun f => do
@@ -67,7 +77,7 @@ def optJ {α} (f : α → Json) (tag : String) : Option α → Json
   | some a => f a
   | none => jErr tag
 
-def handle (j : Json) : Except String Json := do
+def handle1 (j : Json) : Except String Json := do
   let op ← getStr j "op"
   match op with
   | "escape" => pure (cps (escape (← getCps j "s")))
@@ -84,7 +94,10 @@ def handle (j : Json) : Except String Json := do
     pure (cps (joinRaw vs))
   | "format" => do
     let dt ← ofDType (← getStr j "dt")
-    pure (cps (format dt (← ofVal (← j.getObjVal? "v"))))
+    let v ← ofVal (← j.getObjVal? "v")
+    match j.getObjVal? "default" with
+    | .ok d => pure (cps (formatPy dt v (← ofOptCps d)))     -- `format(dt, v, default=d)`, d a string or None
+    | .error _ => pure (cps (format dt v))
   | "cast" => do
     let dt ← ofDType (← getStr j "dt")
     pure (jCast (castPy dt (← getCps j "s")))
@@ -99,12 +112,34 @@ def handle (j : Json) : Except String Json := do
     match splitTyped fields (← getCps j "s") with
     | .ok r => pure (jOk (jList jVal r))
     | .error e => pure (jErr (errTag e))
+  | "mkrec" => do
+    let fields ← ofFields j
+    let colmap ← (← getArr j "colmap").mapM (fun p => do
+      pure ((← getCps p "k"), (← ofVal (← p.getObjVal? "v"))))
+    let rec_ := makeRecord colmap fields
+    -- the record, and what `join(make_record(colmap, fields), fields)` makes of it
+    pure (Json.mkObj [("rec", jList jVal rec_), ("line", jExc cps (joinTyped fields rec_))])
+  | "file" => do
+    let fields ← ofFields j
+    let recs ← (← getArr j "recs").mapM (fun r => do (← r.getArr?).toList.mapM ofVal)
+    match writeText fields recs with
+    | .error e => pure (jErr (errTag e))
+    | .ok text =>
+      pure (Json.mkObj [("text", cps text), ("lines", jNat (linesOf text).length),
+        ("raw", jExc (jList (jList optCps)) (readRaw text)),
+        ("typed", jExc (jList (jList jVal)) (readTyped fields text))])
+  | "lines" => pure (jList cps (linesOf (← getCps j "s")))
   | "row" => do
-    let r ← ofRow j
+    let r ← match ← ofRow j with
+      | .ok r => pure r
+      | .error e => return jErr (errTag e)
     let q ← j.getObjVal? "q"
     let kind ← getStr q "kind"
     match kind with
-    | "iter" => pure (jList jCast r.iter)
+    | "str" => pure (jExc cps r.str)
+    | "len" => pure (jNat r.types.length)
+    | "keys" => pure (jList cps r.names)
+    | "iter" => pure (jCasts r.iter)
     | "data" => pure (jList cps r.data)
     | "idx" => pure (optJ jCast "IndexError" (r.getIdx (← getInt q "i")))
     | "name" => pure (optJ jCast "KeyError" (r.getName (← getCps q "k")))
@@ -112,9 +147,17 @@ def handle (j : Json) : Except String Json := do
       let sl : Slice := { start := ← optInt (← q.getObjVal? "start"),
                           stop := ← optInt (← q.getObjVal? "stop"),
                           step := ← optInt (← q.getObjVal? "step") }
-      pure (optJ (jList jCast) "ValueError" (r.getSlice sl))
+      pure (optJ jCasts "ValueError" (r.getSlice sl))
     | _ => throw s!"bad row query {kind}"
   | _ => throw s!"bad op {op}"
+
+/-- `seq`: several calls in ONE process, answered in order (the model is a function, so each answer is that of the
+single call; the implementation must show the same — no state may leak from one call into a later one). -/
+def handle (j : Json) : Except String Json := do
+  let op ← getStr j "op"
+  if op == "seq" then
+    pure (Json.arr ((← (← getArr j "steps").mapM handle1).toArray))
+  else handle1 j
 
 end Verif.C08.Driver
 
